@@ -185,6 +185,12 @@ func (v *collator_[V]) compareMaps(first ref.Value, second ref.Value) bool {
 	for iterator.Next() {
 		v.depth_++
 		var key = iterator.Key()
+		if !first.MapIndex(key).IsValid() {
+			// A key that is not equal to itself (not-a-number) cannot be
+			// looked up so the sorted associations must be compared instead.
+			v.depth_--
+			return v.rankMaps(first, second) == EqualRank
+		}
 		var firstValue = iterator.Value()
 		var secondValue = second.MapIndex(key)
 		if !v.compareValues(firstValue, secondValue) {
@@ -507,16 +513,13 @@ func (v *collator_[V]) rankMaps(first ref.Value, second ref.Value) Rank {
 		panic(fmt.Sprintf("The maximum traversal depth was exceeded: %v", v.depth_))
 	}
 
-	// Extract and sort the keys for the two Go maps.
-	var sorter = Sorter[ref.Value]().MakeWithRanker(v.rankValues)
-	var firstKeys = first.MapKeys() // The returned keys are in random order.
-	sorter.SortValues(firstKeys)
-	var secondKeys = second.MapKeys() // The returned keys are in random order.
-	sorter.SortValues(secondKeys)
+	// Extract and sort the associations for the two Go maps.
+	var firstEntries = v.sortEntries(first)
+	var secondEntries = v.sortEntries(second)
 
 	// Determine the smallest Go map.
-	var firstSize = len(firstKeys)
-	var secondSize = len(secondKeys)
+	var firstSize = len(firstEntries)
+	var secondSize = len(secondEntries)
 	if firstSize > secondSize {
 		// Swap the order of the Go maps and reverse the result.
 		switch v.rankMaps(second, first) {
@@ -534,8 +537,8 @@ func (v *collator_[V]) rankMaps(first ref.Value, second ref.Value) Rank {
 		v.depth_++
 
 		// Rank the two keys.
-		var firstKey = firstKeys[i]
-		var secondKey = secondKeys[i]
+		var firstKey = firstEntries[i][0]
+		var secondKey = secondEntries[i][0]
 		var keyRank = v.rankValues(firstKey, secondKey)
 		if keyRank != EqualRank {
 			// The two keys are different.
@@ -544,8 +547,8 @@ func (v *collator_[V]) rankMaps(first ref.Value, second ref.Value) Rank {
 		}
 
 		// The two keys match so rank the corresponding values.
-		var firstValue = first.MapIndex(firstKey)
-		var secondValue = second.MapIndex(secondKey)
+		var firstValue = firstEntries[i][1]
+		var secondValue = secondEntries[i][1]
 		var valueRank = v.rankValues(firstValue, secondValue)
 		if valueRank != EqualRank {
 			// The two values are different.
@@ -563,6 +566,32 @@ func (v *collator_[V]) rankMaps(first ref.Value, second ref.Value) Rank {
 
 	// All keys and values match.
 	return EqualRank
+}
+
+// This method returns the associations of the specified Go map sorted by key.
+// A value cannot be looked up by a key that is not equal to itself
+// (not-a-number) so each key is kept together with its value.  Associations
+// whose keys rank as equal are sorted by value so that the result does not
+// depend on the random iteration order of the Go map.
+func (v *collator_[V]) sortEntries(map_ ref.Value) [][2]ref.Value {
+	var entries = make([][2]ref.Value, 0, map_.Len())
+	var iterator = map_.MapRange() // The associations are in random order.
+	for iterator.Next() {
+		entries = append(entries, [2]ref.Value{iterator.Key(), iterator.Value()})
+	}
+	var sorter = Sorter[[2]ref.Value]().MakeWithRanker(
+		func(first, second [2]ref.Value) Rank {
+			var rank = v.rankValues(first[0], second[0])
+			if rank == EqualRank {
+				v.depth_++
+				rank = v.rankValues(first[1], second[1])
+				v.depth_--
+			}
+			return rank
+		},
+	)
+	sorter.SortValues(entries)
+	return entries
 }
 
 func (v *collator_[V]) rankIntrinsics(first, second ref.Value) Rank {
